@@ -243,7 +243,7 @@ def cases(tier, seed):
     for n in (2, 3):
         for m in (1, n):
             out.append((f"complex:n{n}m{m}", case_cg, dict(n=n, max_iters=m, complex_=True, tol=1e-6)))
-    out.append(("blocks-symtol:n4", case_cg, dict(n=4, max_iters=3, cols="blocks"), dict(partial_ok=True)))
+    out.append(("blocks-symtol:n4m3", case_cg, dict(n=4, max_iters=3, cols="blocks"), dict(partial_ok=True)))
     if tier == "quick":
         out.append(("plain:n4m4", case_cg, dict(n=4, max_iters=4, tol=1e-6)))
         out.append(("plain:n4m2", case_cg, dict(n=4, max_iters=2, tol=1e-6)))
